@@ -7,11 +7,11 @@ from vlib import Infra
 CHECKS = {
  "C12": dict(
   text="Solvers.tla transcribes the standard solver (LoadSensors, the sum-then-activate sweep with its isActive wave, ActivateSteps, ForwardSteps) and the fast solver (index layout bias|input|output|hidden, bias links folded into per-neuron biases, forwardStep, ForwardSteps, RecursiveSteps, Relax) as step machines over integers, next to the definition TopoEval. TLC builds every simple DAG of a small node scope link by link (every neuron sensor-reachable, bias links, skip links, output-to-hidden links, two outputs, several allNodes orders), draws weights, integer-closed activation functions and an input vector, runs five fresh solver instances (Network.ForwardSteps(d), fast ForwardSteps(d), RecursiveSteps, Relax(d+1), Relax(d), then further propagation) and checks as an invariant that every one of them returns TopoEval after every call; larger graphs (7 nodes, up to 14 links, arbitrary link order) come from seeded TLC simulation. Every behaviour is rebuilt as a real network (through the network API, through a genome + Genesis, and with the bias value passed explicitly), and the real outputs after each call are compared == with the specification's integers; then the same topology is re-run twice with the other registered activation types (sigmoids, tanh, gaussians, sine, ...; reference = the case's topological order evaluated with the library's ActivateByType, tolerance 1e-9).",
-  note="Exhaustive within: quick - 1 input+1 bias+1 hidden+1 output (all DAGs up to 6 links, weights {-1,2}, inputs {-1,0,1}, 3 activation schemes, 2 node orders) and 2 inputs+1 bias+2 outputs (up to 4 links); thorough - also weights {-2,-1,1,3} x 7 schemes on the 4-node scope, 2 hidden nodes up to 5 links, 2 inputs+bias+hidden+2 outputs up to 5 links. Everything larger is sampled (TLC -simulate, seeded by VERIF_SEED). Not covered: parallel links, modular networks, fewer than depth steps (outside the quantifier); step/sign activations only in the exact integer rounds (their value at an exactly cancelling sum legitimately depends on summation order). Network.RecursiveSteps of the STANDARD solver is not one of the four procedures of C12 and is not asserted. Trusted: TLC, the replayer's network construction, ActivateByType as the reference for non-integer activations (its numerics are C18's business).",
+  note="Exhaustive within (BFS, all simple DAGs with every neuron sensor-reachable, one canonical link order): quick - node shapes {input,bias,output,hidden}, {input,output,hidden} (no bias), {input,2 bias,output} up to 6 links with weights {-1,2}, inputs {-1,0,1}, 3 activation schemes, 2 allNodes orders; {2 inputs,bias,2 outputs} up to 4 links. Thorough adds weights {-1,1,2} x 7 schemes x 3 orders on the 4-node shapes, two hidden nodes (with and without bias) up to 5 links, {2 inputs,bias,hidden,2 outputs} and {2 inputs,2 bias,2 outputs} up to 4 links, and a model-sanity run (the recursive activation without the folded bias, i.e. the code as found, must violate the invariant). Everything larger is sampled: TLC -simulate seeded by VERIF_SEED over 6 shapes of 5-8 nodes (0-2 bias nodes, 1-2 hidden, 1-2 outputs), 4-14 links in any insertion order, 5 node orders, 7 schemes (1 200 behaviours quick, 48 000 thorough). Not covered: parallel links, modular networks, fewer than depth steps (outside the quantifier); step/sign activations only in the exact integer rounds (at an exactly cancelling sum their value legitimately depends on summation order). Network.RecursiveSteps of the STANDARD solver is not one of the four procedures of C12 and is not asserted. Trusted: TLC, the replayer's network construction, ActivateByType as the reference for non-integer activations (its numerics are C18's business).",
   technique=B2, ref="DESIGN.md 7/C12"),
  "C13": dict(
   text="On the same step machines (standard network incl. time-delayed links, lastActivation, isActive, activation counters; fast solver incl. the pre-accumulation array and the recursive-activation bookkeeping) TLC builds every simple digraph of a small scope - self-loops, 2-cycles, longer cycles, time-delayed links, bias links - lets an instance live through every history of API calls (LoadSensors, ForwardSteps(k), RecursiveSteps, ActivateSteps(k)/Relax(k,delta), Activate()/Relax(2,0)), flushes it, and runs every suffix of calls side by side with a twin created fresh at the flush; invariants: the flushed state equals the fresh state in everything a later call can observe, and after every suffix call outputs and error results coincide. The replayer combines, per network, every history with every suffix (evenly thinned above a cap) plus every suffix as its own history (repeated evaluation): a real instance runs history; Flush; suffix, a freshly built twin runs the suffix, and outputs (bit for bit) and error results must coincide after every suffix call, for the standard network and the fast solver, built through the network API and through Genesis, with the specification's activations and again with the library's other activation types. Larger graphs and longer histories come from seeded TLC simulation.",
-  note="Exhaustive within: quick - 1 input+1 hidden+1 output, all 63 link sets incl. self-loops and cycles (2 activation schemes, histories <= 2 calls, suffixes of 2 calls over 7 calls), the same nodes with time-delayed links up to 3 links, and 1 input+1 bias+hidden+output up to 3 links; thorough - histories <= 3, suffixes of 3, weights {-1,2}, bias + time-delayed links up to 4-5 links. Simulation: 7 nodes, <= 14 links, histories <= 4, suffixes of 3. Real observations are also compared with the specification's (conformance); a divergence there is reported as an infrastructure error (the model no longer describes the code), not as a violation. Modular networks (control nodes) are outside the quantifier. Trusted: TLC, the replayer's network construction.",
+  note="Exhaustive within (BFS, every simple digraph of the shape incl. self-loops and cycles): quick - {input,output,hidden}: all 63 link sets, 2 activation schemes, histories <= 2 calls and suffixes of 2 calls over 7 calls (2 load vectors, ForwardSteps 1/2, RecursiveSteps, ActivateSteps/Relax 2, Activate/Relax(2,0)); the same shape with time-delayed links up to 3 links; {input,bias,output,hidden} and {input,2 bias,output} up to 3 links. Thorough adds weights {-1,2} with histories <= 3 and suffixes of 3 (up to 3 links), bias + time-delayed links up to 4 links, and a model-sanity run (a flush that does nothing must violate SuffixEqual). Per network the replayer runs history x suffix up to a cap (400 quick / 3000 thorough, thinned by a hash of the pair index) plus every suffix as its own history. Simulation (seeded by VERIF_SEED): 6 shapes of 5-8 nodes, 2-14 links, time-delayed links, histories <= 4, suffixes of 3 (2 000 behaviours quick, 64 000 thorough). Real observations are also compared with the specification's (conformance); a divergence there is reported as an infrastructure error (the model no longer describes the code), not as a violation. Modular networks (control nodes) are outside the quantifier; the thorough tier records, as information only (never a verdict), how SolversModular.tla / MC_Modular (one multiply/max/min control node) compares with real modular networks. Trusted: TLC, the replayer's network construction.",
   technique=B2, ref="DESIGN.md 7/C13"),
 }
 
@@ -32,6 +32,24 @@ def _cfgs(ctx, module, cfgs, timeout):
         spec_must_hold(mc, cfg)
         files.append(mc.cases_file)
     return files
+
+
+def _modular_information(ctx):
+    """Information only (modular networks are outside the quantifiers of C12/C13): SolversModular.tla / MC_Modular
+    against real networks with a control node.  Nothing here can change the verdict or the exit code."""
+    info = {}
+    try:
+        mc = ctx.tlc("MC_Modular", "MC_Modular.cfg", timeout=900, workers=4, count=False)
+        info["model"] = ("FlushRestores and SuffixEqual hold on SolversModular.tla within MC_Modular.cfg (%d states)" % mc.distinct
+                         if mc.ok else "TLC reports %s violated on the model" % mc.violated)
+        rep_file = ctx.path("modular_report.json")
+        _, rep, _ = ctx.vh(["replay-modular", "-cases", mc.cases_file, "-out", rep_file], expect_report=rep_file,
+                           pkg="vh_solvers", timeout=900)
+        info["replay"] = rep.get("extra")
+        info["pairs_replayed"] = rep.get("cases")
+    except Exception as e:      # noqa: BLE001 - by design: information only
+        info["error"] = str(e)[:500]
+    ctx.extra["modular_networks_information_only"] = info
 
 
 # ------------------------------------------------------------------------------------------------ C12
@@ -69,8 +87,9 @@ def c12(ctx, replay):
         n = cat_files(cases_file, files)
         ctx.exhaustive = True
         ctx.extra["scope"] = {"behaviours": n, "bfs_configs": cfgs,
-                              "simulate": "2 inputs, 1 bias, 2 hidden, 2 outputs, 4..14 links in any order, 5 node orders, "
-                                          "7 activation schemes, weights {-1,1,2}, inputs {-1,0,1}; seed %d" % ctx.seed}
+                              "simulate": "6 node shapes of 5-8 nodes (0-2 bias, 1-2 hidden, 1-2 outputs), 4..14 links in any "
+                                          "order, 5 node orders, 7 activation schemes, weights {-1,1,2}, inputs {-1,0,1}; "
+                                          "seed %d" % ctx.seed}
     rep_file = ctx.path("solver_report.json")
     _, rep, _ = ctx.vh(["replay-solvers", "-cases", cases_file, "-out", rep_file], expect_report=rep_file,
                        pkg="vh_solvers", timeout=3000)
@@ -91,7 +110,9 @@ def c13(ctx, replay):
                 "time-delayed link) whose history activates after loading sensors")
     ctx.assumptions = ["non-modular networks (quantifier of C13)",
                        "a Flush that returns an error is reported as a violation (it never does on a non-modular network)",
-                       "equal error results are part of 'behaves exactly like' (e.g. both report exceeded activation attempts)"]
+                       "equal error results are part of 'behaves exactly like' (e.g. both report exceeded activation attempts)",
+                       "the model does not generate calls after which a signal exceeds 1000 (simulation: 100) in magnitude (TLC integers are "
+                       "32-bit; linear neurons in cycles grow geometrically)"]
     cases_file = ctx.path("flush_cases.ndjson")
     maxpairs = 3000 if thorough else 400
     if replay is not None:
@@ -111,14 +132,16 @@ def c13(ctx, replay):
         n = cat_files(cases_file, files)
         ctx.exhaustive = True
         ctx.extra["scope"] = {"history_and_suffix_lines": n, "bfs_configs": cfgs, "pairs_per_network_cap": maxpairs,
-                              "simulate": "2 inputs, 1 bias, 2 hidden, 2 outputs, 2..14 links (any digraph, time-delayed "
-                                          "links), histories <= 4, suffixes of 3; seed %d" % ctx.seed}
+                              "simulate": "6 node shapes of 5-8 nodes (0-2 bias, 1-2 hidden, 1-2 outputs), 2..14 links (any "
+                                          "digraph, time-delayed links), histories <= 4, suffixes of 3; seed %d" % ctx.seed}
     rep_file = ctx.path("flush_report.json")
     _, rep, _ = ctx.vh(["replay-flush", "-cases", cases_file, "-out", rep_file, "-maxpairs", str(maxpairs)],
                        expect_report=rep_file, pkg="vh_solvers", timeout=3000)
     ctx.add_report(rep, "flush", traces=rep.get("cases", 0))
     extra = rep.get("extra") or {}
     ctx.extra["replay"] = {k: extra.get(k) for k in ("networks", "recurrent_networks", "pairs", "conformance_mismatches")}
+    if thorough and replay is None:
+        _modular_information(ctx)
     if extra.get("conformance_mismatches") and not ctx.violations:
         raise Infra("C13: instance and twin agree everywhere, but %d observation(s) of the real code differ from the "
                     "specification's (Solvers.tla no longer describes the recurrent semantics of the solvers, so the "
